@@ -72,8 +72,11 @@ class Env:
 
         def exp_rename(se):
             s, e = se
-            for x in e.free_symbols:
-                e = e.subs(x, Symbol(f"{deff[0]}_{x.name}"))
+            # rename all the symbols at once: an argument may be called like the
+            # prefixed name of another one
+            e = e.xreplace(
+                {x: Symbol(f"{deff[0]}_{x.name}") for x in e.free_symbols}
+            )
             return (Symbol(f"{deff[0]}_{s.name}"), e)
 
         deff = (
